@@ -243,7 +243,7 @@ fn props() -> Vec<Property> {
             "guard band g = 2 ms around the deadline (tokio's timer wheel rounds up to 1 ms; the handler is polled before the sleep); the simulated network adds no virtual delay in this scenario",
             "the grammar clauses (encoding, parsing) are pure functions of their input: sampled structurally through a foreign peer / hook H2, not decided",
         ],
-        required_probes: vec!["finishes-before-deadline", "cut-off-at-deadline", "inside-guard-band", "unit-coarser-than-ns", "parse-conformant", "parse-malformed"],
+        required_probes: vec!["malformed-header-with-configured-timeout", "finishes-before-deadline", "cut-off-at-deadline", "inside-guard-band", "unit-coarser-than-ns", "parse-conformant", "parse-malformed"],
     },
     Property {
         id: "C13",
